@@ -15,6 +15,7 @@ that ORDER BY decides (`StrictTotalOn`); without it the results are equal as mul
 -/
 import ZenoModel.Lemmas.PlanInSub
 import ZenoModel.Lemmas.PlanText
+import ZenoModel.Model.SubMerge
 
 namespace Zeno.C11
 open Zeno Zeno.Plan Zeno.PlanLemmas
@@ -392,6 +393,66 @@ theorem pushdownAllowedT_sound (tgb pk : List String) (t : QTree)
   unfold pushdownAllowedT at h
   simp only [Bool.and_eq_true] at h
   exact ⟨h.2, pkProj_storedKey tgb pk h.1⟩
+
+/-! ## overlapping select expressions on the non-pushdown path -/
+
+/-- The leader's state of every field equals `Ex.acc` over the group's rows ALSO when the
+    partition-side select list `fields` contains overlapping expressions (IF(c, f) next to f,
+    f + g next to f, the same aggregate under two names): with pass-through fields the
+    sub-merger matching, reduced to "first input column with the output's own expression, and
+    nothing else" (`pickExact`: exact match wins over matches of parts + bytetree's input
+    de-duplication), merges each output column from its own column only. -/
+theorem nonpushdown_state_overlapping (q : Query) (hq : NPWF q) (s : Src) (G : DKey × Int)
+    (sel : Option String) (hsel : sel = none ∨ q.ctab.isSome = true) (fields : List Ex) (e : Ex)
+    (he : e ∈ fields) (hv : e.valid = true) (hp : e.noPtile = true) (parts : List (List PRow)) :
+    leaderStateCols fields e sel
+        ((parts.flatMap (runStates x (rewriteAst q) s)).filter (fun m => cid q m == G)) =
+      e.acc x ((((parts.flatten.filter (admits q s)).filter (fun r => gid q s r == G)).filter
+        (selR q sel)).map (toPt q)) := by
+  rw [leaderStateCols_eq fields e he]
+  exact nonpushdown_state x q hq s G sel hsel e hv hp parts
+
+/-- 0 = no sub-merger, 1 = the expression's own `Merge` (exact match), 2 = anything else
+    (conditional / combined / shifted merge of a part) -/
+def smTag : Option SM → Nat
+  | none => 0
+  | some (.direct _) => 1
+  | some _ => 2
+
+/-- what `bytetree.New` computes for output column `o` over the input columns `ins` -/
+def mergeRow (ins : List Ex) (o : Ex) : List Nat := (dedupInputs ins (o.subMergers ins)).map smTag
+
+def ovA : Ex := .agg .sum (.field "a")
+def ovB : Ex := .agg .sum (.field "b")
+def ovIf : Ex := .ifE 0 ovA
+def ovSum : Ex := .bin .add ovA ovB
+def ovMix : Ex := .bin .add ovIf ovB
+
+/-- The real matching rules (Model/SubMerge.lean: `Ex.subMergers` + `dedupInputs`) on
+    overlapping pass-through select lists give the diagonal that `pickExact` states: every
+    output column is merged from its own input column, directly, and from no other —
+    `a, IF(c, a)`; `IF(c, a), a, b`; `a, a + b`; `a, b, IF(c, a) + b, IF(c, a)`; `a, a, IF(c, a)`. -/
+theorem overlapping_columns_merge_diagonally :
+    mergeRow [ovA, ovIf] ovA = [1, 0] ∧ mergeRow [ovA, ovIf] ovIf = [0, 1] ∧
+    mergeRow [ovIf, ovA, ovB] ovIf = [1, 0, 0] ∧ mergeRow [ovIf, ovA, ovB] ovA = [0, 1, 0] ∧
+    mergeRow [ovA, ovSum] ovSum = [0, 1] ∧ mergeRow [ovA, ovSum] ovA = [1, 0] ∧
+    mergeRow [ovA, ovB, ovMix, ovIf] ovMix = [0, 0, 1, 0] ∧
+    mergeRow [ovA, ovB, ovMix, ovIf] ovIf = [0, 0, 0, 1] ∧
+    mergeRow [ovA, ovA, ovIf] ovA = [1, 0, 0] ∧ mergeRow [ovA, ovA, ovIf] ovIf = [0, 0, 1] := by
+  decide
+
+/-- The regression "ifExpr.SubMergers decides per column": an exact match merges as is, every
+    other column gets the conditional merge of whatever the wrapped expression matches.  For
+    the select list `a, IF(c, a)` the IF output is then merged from BOTH input columns
+    (doubled where the condition holds on the leader's key). -/
+def ifSubMergersPerColumn (c : Nat) (w : Ex) (subs : List Ex) : List (Option SM) :=
+  (List.zip subs (w.subMergers subs)).map (fun p =>
+    if (Ex.ifE c w).sameStr p.1 then some (.direct (.ifE c w)) else p.2.map (SM.cond c))
+
+theorem per_column_if_rule_merges_twice :
+    (dedupInputs [ovA, ovIf] (ifSubMergersPerColumn 0 ovA [ovA, ovIf])).map smTag = [2, 1] ∧
+    mergeRow [ovA, ovIf] ovIf = [0, 1] := by
+  decide
 
 /-! ## the rewrite as text -/
 
